@@ -35,9 +35,24 @@ def View.at2d (v : View) (i : Nat) : Int := v.addr (i % v.w) (i / v.w)
 /-- x-iterator of a 1-D traversable view advanced by `i`: `begin().x() + i` -/
 def View.at1d (v : View) (i : Nat) : Int := v.base + (i : Int) * v.xs
 
-abbrev Mem := Int → Nat
+/-- memory: pixel cell address -> pixel value, as an association list (newest binding first; unbound cells read 0) -/
+structure Mem where
+  cells : List (Int × Nat)
+  deriving Repr
 
-def Mem.set (m : Mem) (a : Int) (v : Nat) : Mem := fun x => if x = a then v else m x
+def Mem.get (m : Mem) (a : Int) : Nat :=
+  match m.cells.find? (fun e => e.1 == a) with
+  | some e => e.2
+  | none => 0
+
+def Mem.set (m : Mem) (a : Int) (v : Nat) : Mem := ⟨(a, v) :: m.cells⟩
+
+theorem Mem.get_set (m : Mem) (a x : Int) (v : Nat) : (m.set a v).get x = if x = a then v else m.get x := by
+  unfold Mem.set Mem.get
+  by_cases h : x = a
+  · subst h; simp [List.find?]
+  · have : (a == x) = false := by simp [Ne.symm h]
+    simp [List.find?, this, h]
 
 /-! ### Spec: the obvious loops -/
 
@@ -49,19 +64,19 @@ def specAddrs (v : View) : List Int := (List.range (v.w * v.h)).map v.at2d
 /-- `for y, for x: dst(x,y) = src(x,y)` -/
 def specCopyPairs (s d : View) : List (Int × Int) := (List.range (d.w * d.h)).map (fun i => (s.at2d i, d.at2d i))
 
-def applyPairs (m : Mem) (ps : List (Int × Int)) : Mem := ps.foldl (fun m p => m.set p.2 (m p.1)) m
+def applyPairs (m : Mem) (ps : List (Int × Int)) : Mem := ps.foldl (fun m p => m.set p.2 (m.get p.1)) m
 
 def specCopy (m : Mem) (s d : View) : Mem := applyPairs m (specCopyPairs s d)
 def specFill (m : Mem) (d : View) (v : Nat) : Mem := (specAddrs d).foldl (fun m a => m.set a v) m
-def specEqual (m : Mem) (a b : View) (eq : Nat → Nat → Bool) : Bool := (specCopyPairs a b).all (fun p => eq (m p.1) (m p.2))
+def specEqual (m : Mem) (a b : View) (eq : Nat → Nat → Bool) : Bool := (specCopyPairs a b).all (fun p => eq (m.get p.1) (m.get p.2))
 /-- generate_pixels: the k-th call of the functor produces the pixel at linear index k -/
 def specGenerate (m : Mem) (d : View) (f : Nat → Nat) : Mem :=
   ((List.range (d.w * d.h)).map (fun k => (d.at2d k, f k))).foldl (fun m p => m.set p.1 p.2) m
 /-- transform_pixels: dst(x,y) = fun(src(x,y)) -/
 def specTransform (m : Mem) (s d : View) (f : Nat → Nat) : Mem :=
-  (specCopyPairs s d).foldl (fun m p => m.set p.2 (f (m p.1))) m
+  (specCopyPairs s d).foldl (fun m p => m.set p.2 (f (m.get p.1))) m
 def specTransform2 (m : Mem) (s1 s2 d : View) (f : Nat → Nat → Nat) : Mem :=
-  ((List.range (d.w * d.h)).map (fun i => (s1.at2d i, s2.at2d i, d.at2d i))).foldl (fun m p => m.set p.2.2 (f (m p.1) (m p.2.1))) m
+  ((List.range (d.w * d.h)).map (fun i => (s1.at2d i, s2.at2d i, d.at2d i))).foldl (fun m p => m.set p.2.2 (f (m.get p.1) (m.get p.2.1))) m
 
 /-! ### Impl: the traversal the code performs -/
 
@@ -101,7 +116,7 @@ def implFill (m : Mem) (d : View) (v : Nat) : Mem := (implFillAddrs d).foldl (fu
 
 /-- equal_pixels -> std::equal overload -> equal_n_fn: chunk-wise comparison with early exit = `all` over the same traversal -/
 def implEqual (m : Mem) (a b : View) (eq : Nat → Nat → Bool) : Bool :=
-  ((implSide a).zip (implSide b)).all (fun p => eq (m p.1) (m p.2))
+  ((implSide a).zip (implSide b)).all (fun p => eq (m.get p.1) (m.get p.2))
 
 /-- for_each_pixel / generate_pixels: same two-way split as fill_pixels -/
 def implGenerate (m : Mem) (d : View) (f : Nat → Nat) : Mem :=
@@ -111,17 +126,17 @@ def implGenerate (m : Mem) (d : View) (f : Nat → Nat) : Mem :=
 def rowPairs (s d : View) : List (Int × Int) :=
   (List.range d.h).flatMap (fun y => (List.range d.w).map (fun x => (s.addr x y, d.addr x y)))
 def implTransform (m : Mem) (s d : View) (f : Nat → Nat) : Mem :=
-  (rowPairs s d).foldl (fun m p => m.set p.2 (f (m p.1))) m
+  (rowPairs s d).foldl (fun m p => m.set p.2 (f (m.get p.1))) m
 
 /-- copy_and_convert_pixels: compatible views: plain copy_pixels; otherwise copy_pixels(color_converted_view(src, cc), dst):
     the converting view is a dereference adaptor over the same locator (same traversability, same addresses) -/
 def implConvertCopy (m : Mem) (s d : View) (compatible : Bool) (cc : Nat → Nat) : Mem :=
-  if compatible then implCopy m s d else (implCopyPairs s d).foldl (fun m p => m.set p.2 (cc (m p.1))) m
+  if compatible then implCopy m s d else (implCopyPairs s d).foldl (fun m p => m.set p.2 (cc (m.get p.1))) m
 
 /-- transform_pixels with two sources: row loops over dst's dimensions -/
 def implTransform2 (m : Mem) (s1 s2 d : View) (f : Nat → Nat → Nat) : Mem :=
   ((List.range d.h).flatMap (fun y => (List.range d.w).map (fun x => (s1.addr x y, s2.addr x y, d.addr x y)))).foldl
-    (fun m p => m.set p.2.2 (f (m p.1) (m p.2.1))) m
+    (fun m p => m.set p.2.2 (f (m.get p.1) (m.get p.2.1))) m
 
 /-- cells of a view -/
 def View.cells (v : View) : List Int := specAddrs v
